@@ -14,6 +14,7 @@ import os
 import glob
 
 from mon import refbufr as R
+from mon import handover
 from mon import nested
 from mon.gen import cases
 
@@ -157,6 +158,14 @@ def run_checks(ctx, msg, exprs_pool, origin):
     from pybufrkit.dataquery import QueryResult
     rng = ctx.rng
     bq = BufrMessageQuerent()
+    try:
+        sb = bytes(msg.serialized_bytes)
+        if len(sb) < 20000:
+            # the names a script binds are the query results for the message - also for a message object that was queried,
+            # rendered or wired (in either order, through either entry point) before the script runs
+            handover.on_message(ctx, sb, dict(origin=origin), site=origin, p=0.3)
+    except Exception as e:
+        ctx.notes.append('object history skipped: %r' % (e,))
     # scripts WITHOUT any embedded expression (none at all / only inside literals and comments): "every expression starts
     # with %" holds vacuously, so only metadata is needed; the two PBK_ names are still bound
     for script in ('x = 1\n', '', "lit = 'a ${001001} b'  # ${%length}\nname = PBK_FILENAME\n", '# only a comment ${012001}\n'):
